@@ -417,6 +417,9 @@ func runCheck(repo, verif, prop, tier string, seed int, updateExpected, verbose 
 	for _, k := range sortedKeys(notes) {
 		assumptions = append(assumptions, "abstraction: "+k)
 	}
+	if b, err := os.ReadFile(filepath.Join(verif, "prop_notes.json")); err == nil {
+		json.Unmarshal(b, &propNotes)
+	}
 	if pn := propNotes[prop]; pn != "" {
 		assumptions = append(assumptions, "not decided by this check: "+pn)
 	}
